@@ -108,6 +108,33 @@ def run(ctx: Ctx, rep: Report, tier: str):
         used = {x.id for x in ast.walk(r_.value) if isinstance(x, ast.Name)} & locs - {np_.params()[0]} if r_.value is not None else set()
         rep.check("C13.Z7", "normalize_path|%s" % ast.unparse(r_)[:60], ctx.line(np_, r_), used == {coll[0]}, "built from %s only" % coll[0],
                   "a result of normalize_path is built from %s instead of the collapsed value `%s`: the display form and the comparison form of one path differ in more than case" % (sorted(used - {coll[0]}) or "nothing", coll[0]))
+    from rules.common import subpath_lengths_are_normalised
+    rep.rule("C13.Z8", "is_subpath positions its boundary test and cuts the relative part with lengths of separator-normalised values, never of a raw argument", 2)
+    subpath_lengths_are_normalised(ctx, rep, "C13.Z8")
+    rep.rule("C13.Z9", "join decides whether to prefix the separator from the joined value alone (first character, drive-letter colon at index 1): the decision never "
+             "looks at an individual input component, so join(a, b, c) and join(join(a, b), c) agree and a drive-rooted folder stays a prefix of what is joined under it", 1)
+    jf = ctx.prog.func("Provider.join")
+    pre = [n for n in ctx.own_nodes(jf) if isinstance(n, ast.Assign) and isinstance(n.targets[0], ast.Name) and isinstance(n.value, ast.BinOp) and isinstance(n.value.op, ast.Add)
+           and pat.match("%s.sep" % jf.params()[0], n.value.left) is not None and isinstance(n.value.right, ast.Name) and n.value.right.id == n.targets[0].id]
+    if not pre:
+        raise AnalysisError("Provider.join: the statement that prefixes the separator was not found")
+    for st_ in pre:
+        j = st_.targets[0].id
+        facts = ctx.facts_at(jf, st_)
+        others = set()
+        for (txt, pol) in facts:
+            try:
+                e_ = ast.parse(txt, mode="eval").body
+            except SyntaxError:
+                continue
+            if isinstance(e_, ast.Name):
+                continue            # `if norm_paths:` - is there anything to join at all
+            for x in ast.walk(e_):
+                if isinstance(x, ast.Name) and x.id not in (j, jf.params()[0]):
+                    others.add(x.id)
+        rep.check("C13.Z9", "join|prefix-decision", ctx.line(jf, st_), not others, "guards mention only `%s`" % j,
+                  "the leading separator is added depending on %s (an input component), not on the joined value: a first component such as `c:\\Users\\me` is no longer "
+                  "recognised as drive-rooted, join() leaves its own folder (is_subpath(folder, join(folder, rel)) is false)" % sorted(others))
     rep.rule("C13.Z1", "alias of C12.Y5: component boundary + symmetric case fold in is_subpath", expect_min=4)
     rep.rule("C13.Z6", "alias of C12.Y2: default translate uses the source side's provider for membership and the destination's for the join", expect_min=3)
     c12 = C12(ctx, rep)
